@@ -39,10 +39,7 @@ def compile_corpus(ctx, per_compiler, compilers=None):
     for r in recs:
         if r["skip"].startswith("HARNESS"):
             raise MachineryError("harness error: %s" % r.get("detail"))
-    done = sum(1 for r in recs if not r["skip"])
-    if done * 5 < len(recs):
-        # a vacuous run (e.g. every build timing out on an overloaded machine) must not pass as "ok"
-        raise MachineryError("only %d of %d compilations were carried out: %s" % (done, len(recs), sorted({r["skip"] for r in recs})))
+    compobs.require_coverage(recs)
     return recs
 
 
